@@ -8,11 +8,12 @@ import Driver.OpsLint
 import Driver.OpsCompile
 import Driver.OpsPhys
 import Driver.OpsGen
+import Driver.OpsRunner
 /- `canmodel`: reads one operation per line on stdin, prints `model<TAB>spec` per line. -/
 open Driver
 
 def dispatch (ws : List String) : String :=
-  let groups : List (List String → Option (String × String)) := [opsBits, opsSignal, opsSocketcan, opsFrameText, opsNetlink, opsDbc, opsLint, opsCompile, opsPhys, opsGen]
+  let groups : List (List String → Option (String × String)) := [opsBits, opsSignal, opsSocketcan, opsFrameText, opsNetlink, opsDbc, opsLint, opsCompile, opsPhys, opsGen, opsRunner]
   match groups.findSome? (fun g => g ws) with
   | some (m, s) => m ++ "\t" ++ s
   | none => "bad-op\t-"
